@@ -244,4 +244,14 @@ theorem SC.runSB_filter (c : SC) (evs : List (Step × Blk)) :
       simp only [SC.runSB, this]
       exact ih c
 
+/-- pushing a parent-linked run of New blocks -/
+theorem SC.run_news (base : Id) (st : List Blk) (news : List Blk) (h : linkedBlks (topOf base (st.map (·.id))) news) :
+    (⟨base, st⟩ : SC).runSB (news.map (fun b => (Step.new, b))) = some ⟨base, st ++ news⟩ := by
+  induction news generalizing st with
+  | nil => simp [SC.runSB]
+  | cons b r ih =>
+    simp only [List.map_cons, SC.runSB, SC.apply, SC.top, h.1, if_true]
+    have := ih (st ++ [b]) (by simpa using h.2)
+    rw [this]; simp
+
 end BstreamVerif.Forkable
